@@ -240,6 +240,8 @@ def judge(task):
             sig = 'C01:not-a-prefix'
             if best[1] == ['lastTransaction']:
                 sig = 'C01:ltid-of-discarded-tail'
+            elif mode == 'read-only' and best[1] == ['iterator'] and d.get('iterator') == 'err:CorruptedDataError':
+                sig = 'C01:ro-iterator-raises-on-short-tail'
             return None, (sig, '%s reopen of the crash image shows a state that is not that of any prefix '
                           'of the committed transactions; closest prefix n=%d differs on %s (e.g. %s: got %s, '
                           'prefix has %s)' % (mode, best[0], best[1][:6], best[1][0],
